@@ -50,15 +50,18 @@ class DynIdDefModeInfo:
 
         clear_dyn_def_message_ref = OdxLinkRef.from_et(
             et_element.find("CLEAR-DYN-DEF-MESSAGE-REF"), doc_frags)
+        clear_dyn_def_message_snref = None
         if (snref_elem := et_element.find("CLEAR-DYN-DEF-MESSAGE-SNREF")) is not None:
             clear_dyn_def_message_snref = snref_elem.attrib["SHORT-NAME"]
 
         read_dyn_def_message_ref = OdxLinkRef.from_et(
             et_element.find("READ-DYN-DEF-MESSAGE-REF"), doc_frags)
+        read_dyn_def_message_snref = None
         if (snref_elem := et_element.find("READ-DYN-DEF-MESSAGE-SNREF")) is not None:
             read_dyn_def_message_snref = snref_elem.attrib["SHORT-NAME"]
 
         dyn_def_message_ref = OdxLinkRef.from_et(et_element.find("DYN-DEF-MESSAGE-REF"), doc_frags)
+        dyn_def_message_snref = None
         if (snref_elem := et_element.find("DYN-DEF-MESSAGE-SNREF")) is not None:
             dyn_def_message_snref = snref_elem.attrib["SHORT-NAME"]
 
